@@ -76,4 +76,284 @@ Proof.
   rewrite toks_elem. unfold nonleaf in Hn. cbn [node_ty] in Hn. rewrite Hn. reflexivity.
 Qed.
 
+(* ---------------------------------------------------------------- add_range *)
+(* tokens of node(r, d)'s content on the left / right of the path's child at that level *)
+Definition left_of (r : rpos) (d : nat) : list tok :=
+  match path_at r d with
+  | Some (n, i, _) =>
+    ftoks (firstn i (node_content n)) ++
+    (if d =? rp_depth r
+     then match nth_error (node_content n) i with Some c => firstn (rp_text_offset r) (toks c) | None => [] end
+     else [])
+  | None => []
+  end.
+Definition right_of (r : rpos) (d : nat) : list tok :=
+  match path_at r d with
+  | Some (n, i, _) =>
+    if d =? rp_depth r
+    then match nth_error (node_content n) i with
+         | Some c => skipn (rp_text_offset r) (toks c) ++ ftoks (skipn (S i) (node_content n))
+         | None => []
+         end
+    else ftoks (skipn (S i) (node_content n))
+  | None => []
+  end.
+
+Lemma firstn_skipn_all {A} (l : list A) k : firstn (length l - k) (skipn k l) = skipn k l.
+Proof. rewrite <- (skipn_length k l). apply firstn_all. Qed.
+
+Lemma path_at_depth_le r d x : path_at r d = Some x -> d <= rp_depth r.
+Proof.
+  unfold path_at, rp_depth. intros H. assert (d < length (rp_path r)) by (apply nth_error_Some; congruence). lia.
+Qed.
+
+Lemma node_before_toks r x :
+  rp_node_before s r = Ok (Some x) -> rp_text_offset r <> 0 -> TextAt r ->
+  exists n i o c, path_at r (rp_depth r) = Some (n, i, o) /\ nth_error (node_content n) i = Some c /\
+                  toks x = firstn (rp_text_offset r) (toks c).
+Proof.
+  unfold rp_node_before, rp_parent. intros H Ez Ht.
+  destruct (rp_node r (rp_depth r)) as [parent|] eqn:En; [|discriminate]. cbn [bind] in H.
+  destruct (rp_index r (rp_depth r)) as [index|] eqn:Ei; [|discriminate]. cbn [bind] in H.
+  destruct (rp_node_path _ _ _ En) as (i0 & o0 & Hp). destruct (rp_index_path _ _ _ Ei) as (n1 & o1 & Hp1).
+  rewrite Hp in Hp1. inversion Hp1; subst n1 i0 o1. clear Hp1.
+  destruct (rp_text_offset r =? 0) eqn:Ez'; [apply Nat.eqb_eq in Ez'; contradiction|]. cbn [negb] in H.
+  destruct (Ht Ez) as (n2 & i2 & o2 & t & m & Hp2 & Hc2).
+  rewrite Hp in Hp2. inversion Hp2; subst n2 i2 o2. rewrite Hc2 in H.
+  destruct (text_cut t m 0 (rp_text_offset r)) as [c|] eqn:Et; [|discriminate].
+  cbn [bind] in H. inversion H; subst. exists parent, index, o0, (Text t m). split; [exact Hp|]. split; [exact Hc2|].
+  rewrite (text_cut_toks s _ _ _ _ _ Et). unfold seg. rewrite Nat.sub_0_r. reflexivity.
+Qed.
+
+Lemma node_after_toks r x :
+  rp_node_after s r = Ok (Some x) -> rp_text_offset r <> 0 -> TextAt r ->
+  exists n i o c, path_at r (rp_depth r) = Some (n, i, o) /\ nth_error (node_content n) i = Some c /\
+                  toks x = skipn (rp_text_offset r) (toks c).
+Proof.
+  unfold rp_node_after, rp_parent. intros H Ez Ht.
+  destruct (rp_node r (rp_depth r)) as [parent|] eqn:En; [|discriminate]. cbn [bind] in H.
+  destruct (rp_index r (rp_depth r)) as [index|] eqn:Ei; [|discriminate]. cbn [bind] in H.
+  destruct (rp_node_path _ _ _ En) as (i0 & o0 & Hp). destruct (rp_index_path _ _ _ Ei) as (n1 & o1 & Hp1).
+  rewrite Hp in Hp1. inversion Hp1; subst n1 i0 o1. clear Hp1.
+  destruct (Ht Ez) as (n2 & i2 & o2 & t & m & Hp2 & Hc2).
+  rewrite Hp in Hp2. inversion Hp2; subst n2 i2 o2. rewrite Hc2 in H.
+  destruct (rp_text_offset r =? 0) eqn:Ez'; [apply Nat.eqb_eq in Ez'; contradiction|].
+  destruct (text_cut t m (rp_text_offset r) (text_length t)) as [c|] eqn:Et; [|discriminate].
+  cbn [bind] in H. inversion H; subst. exists parent, index, o0, (Text t m). split; [exact Hp|]. split; [exact Hc2|].
+  rewrite (text_cut_toks s _ _ _ _ _ Et). unfold seg.
+  pose proof (toks_length s (Text t m)) as Hl. cbn [node_size] in Hl. rewrite <- Hl. apply firstn_skipn_all.
+Qed.
+
+Lemma add_range_left e depth target l :
+  add_range s None (Some e) depth target = Ok l -> TextAt e ->
+  nt (ftoks l) = nt (ftoks target) ++ nt (left_of e depth).
+Proof.
+  unfold add_range. intros H Ht.
+  destruct (rp_node e depth) as [n|] eqn:En; [|discriminate]. cbn [bind] in H.
+  destruct (rp_index e depth) as [ei|] eqn:Eei; [|discriminate]. cbn [bind] in H.
+  destruct (length (node_content n) <? ei); [discriminate|]. cbn [bind] in H.
+  destruct (rp_node_path _ _ _ En) as (i0 & o0 & Hp). destruct (rp_index_path _ _ _ Eei) as (n1 & o1 & Hp1).
+  rewrite Hp in Hp1. inversion Hp1; subst n1 i0 o1. clear Hp1.
+  unfold left_of. rewrite Hp. rewrite Nat.sub_0_r in H. cbn [skipn] in H.
+  rewrite nt_app, app_assoc, <- add_all_toks.
+  destruct (rp_depth e =? depth) eqn:Ed.
+  - apply Nat.eqb_eq in Ed. subst depth. rewrite Nat.eqb_refl. cbn [andb] in H.
+    destruct (rp_text_offset e =? 0) eqn:Ez; cbn [negb] in H.
+    + apply Nat.eqb_eq in Ez. rewrite Ez. inversion H; subst.
+      replace (match nth_error (node_content n) ei with Some c => firstn 0 (toks c) | None => [] end) with (@nil tok)
+        by (destruct (nth_error (node_content n) ei); reflexivity).
+      cbn. rewrite app_nil_r. reflexivity.
+    + apply Nat.eqb_neq in Ez. destruct (rp_node_before s e) as [[x|]|] eqn:Enb; try discriminate.
+      cbn [bind] in H. inversion H; subst.
+      destruct (node_before_toks _ _ Enb Ez Ht) as (n2 & i2 & o2 & c & Hp2 & Hc & Hx).
+      rewrite Hp in Hp2. inversion Hp2; subst n2 i2 o2. rewrite Hc, <- Hx. apply add_node_toks.
+  - cbn [andb] in H. inversion H; subst. rewrite Nat.eqb_sym, Ed. cbn. rewrite app_nil_r. reflexivity.
+Qed.
+
+Lemma skipn_nth_cons {A} (l : list A) i c : nth_error l i = Some c -> skipn i l = c :: skipn (S i) l.
+Proof.
+  revert i. induction l as [|x l IH]; intros [|i] H; try discriminate.
+  - inversion H; reflexivity.
+  - cbn [nth_error] in H. cbn [skipn]. apply IH. exact H.
+Qed.
+
+Lemma add_range_right sp depth target l :
+  add_range s (Some sp) None depth target = Ok l -> TextAt sp ->
+  nt (ftoks l) = nt (ftoks target) ++ nt (right_of sp depth).
+Proof.
+  unfold add_range. intros H Ht.
+  destruct (rp_node sp depth) as [n|] eqn:En; [|discriminate]. cbn [bind] in H.
+  destruct (rp_index sp depth) as [si|] eqn:Esi; [|discriminate]. cbn [bind] in H.
+  destruct (rp_node_path _ _ _ En) as (i0 & o0 & Hp). destruct (rp_index_path _ _ _ Esi) as (n1 & o1 & Hp1).
+  rewrite Hp in Hp1. inversion Hp1; subst n1 i0 o1. clear Hp1.
+  pose proof (path_at_depth_le _ _ _ Hp) as Hle.
+  unfold right_of. rewrite Hp.
+  destruct (depth <? rp_depth sp) eqn:Ed.
+  - apply Nat.ltb_lt in Ed. cbn [bind] in H. rewrite Nat.ltb_irrefl in H. cbn [bind] in H.
+    rewrite firstn_skipn_all in H. inversion H; subst.
+    replace (depth =? rp_depth sp) with false by (symmetry; apply Nat.eqb_neq; lia).
+    apply add_all_toks.
+  - apply Nat.ltb_ge in Ed. assert (depth = rp_depth sp) by lia. subst depth. rewrite Nat.eqb_refl.
+    destruct (rp_text_offset sp =? 0) eqn:Ez; cbn [negb] in H.
+    + apply Nat.eqb_eq in Ez. rewrite Ez. cbn [bind] in H. rewrite Nat.ltb_irrefl in H. cbn [bind] in H.
+      rewrite firstn_skipn_all in H. inversion H; subst. rewrite add_all_toks. f_equal. f_equal.
+      destruct (nth_error (node_content n) si) as [c|] eqn:Ec.
+      * rewrite (skipn_nth_cons _ _ _ Ec). reflexivity.
+      * apply nth_error_None in Ec. rewrite skipn_all2 by lia. reflexivity.
+    + apply Nat.eqb_neq in Ez. destruct (rp_node_after s sp) as [[x|]|] eqn:Ena; try discriminate.
+      cbn [bind] in H. rewrite Nat.ltb_irrefl in H. cbn [bind] in H.
+      rewrite firstn_skipn_all in H. inversion H; subst.
+      destruct (node_after_toks _ _ Ena Ez Ht) as (n2 & i2 & o2 & c & Hp2 & Hc & Hx).
+      rewrite Hp in Hp2. inversion Hp2; subst n2 i2 o2. rewrite Hc, <- Hx.
+      rewrite add_all_toks, add_node_toks, nt_app, app_assoc. reflexivity.
+Qed.
+
+Lemma add_range_mid sp e depth target l :
+  add_range s (Some sp) (Some e) depth target = Ok l ->
+  rp_text_offset sp = 0 -> rp_text_offset e = 0 ->
+  exists n ei o si, path_at e depth = Some (n, ei, o) /\ rp_index sp depth = Ok si /\
+    nt (ftoks l) = nt (ftoks target) ++
+                   nt (ftoks (seg (node_content n) (if depth <? rp_depth sp then S si else si) ei)).
+Proof.
+  unfold add_range. intros H Hzs Hze.
+  destruct (rp_node e depth) as [n|] eqn:En; [|discriminate]. cbn [bind] in H.
+  destruct (rp_index e depth) as [ei|] eqn:Eei; [|discriminate]. cbn [bind] in H.
+  destruct (rp_index sp depth) as [si|] eqn:Esi; [|discriminate]. cbn [bind] in H.
+  destruct (rp_node_path _ _ _ En) as (i0 & o0 & Hp). destruct (rp_index_path _ _ _ Eei) as (n1 & o1 & Hp1).
+  rewrite Hp in Hp1. inversion Hp1; subst n1 i0 o1. clear Hp1.
+  exists n, ei, o0, si. split; [exact Hp|]. split; [reflexivity|].
+  rewrite Hzs, Hze in H. cbn [Nat.eqb negb] in H. rewrite andb_false_r in H.
+  destruct (depth <? rp_depth sp); cbn [bind] in H;
+    (destruct (length (node_content n) <? ei); [discriminate|]); cbn [bind] in H; inversion H; subst;
+    apply add_all_toks.
+Qed.
+
+(* ---------------------------------------------------------------- paths level by level *)
+Lemma skipn_path r d x : path_at r d = Some x -> skipn d (rp_path r) = x :: skipn (S d) (rp_path r).
+Proof. unfold path_at. apply skipn_nth_cons. Qed.
+
+Lemma skipn_S_nil r d : rp_depth r <= d -> skipn (S d) (rp_path r) = [].
+Proof. unfold rp_depth. intros H. apply skipn_all2. lia. Qed.
+
+Lemma path_at_S_some r d : d < rp_depth r -> exists x, path_at r (S d) = Some x.
+Proof.
+  unfold rp_depth, path_at. intros H. destruct (nth_error (rp_path r) (S d)) as [x|] eqn:E; [eauto|].
+  apply nth_error_None in E. lia.
+Qed.
+
+Lemma before_p_final r d n i o toff :
+  path_at r d = Some (n, i, o) -> rp_depth r <= d ->
+  before_p s (skipn d (rp_path r)) toff =
+  ftoks (firstn i (node_content n)) ++
+  match nth_error (node_content n) i with Some c => firstn toff (toks c) | None => [] end.
+Proof. intros Hp Hd. rewrite (skipn_path _ _ _ Hp), (skipn_S_nil _ _ Hd). reflexivity. Qed.
+
+Lemma before_p_inner r d n i o c i' o' toff :
+  path_at r d = Some (n, i, o) -> path_at r (S d) = Some (c, i', o') ->
+  before_p s (skipn d (rp_path r)) toff =
+  ftoks (firstn i (node_content n)) ++ open_tok c :: before_p s (skipn (S d) (rp_path r)) toff.
+Proof.
+  intros Hp Hp'. rewrite (skipn_path _ _ _ Hp). cbn [before_p]. rewrite (skipn_path _ _ _ Hp'). reflexivity.
+Qed.
+
+Lemma after_p_final r d n i o toff :
+  path_at r d = Some (n, i, o) -> rp_depth r <= d ->
+  after_p s (skipn d (rp_path r)) toff =
+  match nth_error (node_content n) i with
+  | Some c => skipn toff (toks c) ++ ftoks (skipn (S i) (node_content n))
+  | None => []
+  end.
+Proof. intros Hp Hd. rewrite (skipn_path _ _ _ Hp), (skipn_S_nil _ _ Hd). reflexivity. Qed.
+
+Lemma after_p_inner r d n i o x toff :
+  path_at r d = Some (n, i, o) -> path_at r (S d) = Some x ->
+  after_p s (skipn d (rp_path r)) toff =
+  after_p s (skipn (S d) (rp_path r)) toff ++ [TClose] ++ ftoks (skipn (S i) (node_content n)).
+Proof.
+  intros Hp Hp'. rewrite (skipn_path _ _ _ Hp). cbn [after_p]. rewrite (skipn_path _ _ _ Hp'). reflexivity.
+Qed.
+
+Lemma left_of_final r d n i o :
+  path_at r d = Some (n, i, o) -> rp_depth r <= d ->
+  left_of r d = before_p s (skipn d (rp_path r)) (rp_text_offset r).
+Proof.
+  intros Hp Hd. rewrite (before_p_final _ _ _ _ _ _ Hp Hd). unfold left_of. rewrite Hp.
+  pose proof (path_at_depth_le _ _ _ Hp). replace (d =? rp_depth r) with true by (symmetry; apply Nat.eqb_eq; lia).
+  reflexivity.
+Qed.
+Lemma left_of_inner r d n i o :
+  path_at r d = Some (n, i, o) -> d < rp_depth r -> left_of r d = ftoks (firstn i (node_content n)).
+Proof.
+  intros Hp Hd. unfold left_of. rewrite Hp. replace (d =? rp_depth r) with false by (symmetry; apply Nat.eqb_neq; lia).
+  apply app_nil_r.
+Qed.
+Lemma right_of_final r d n i o :
+  path_at r d = Some (n, i, o) -> rp_depth r <= d ->
+  right_of r d = after_p s (skipn d (rp_path r)) (rp_text_offset r).
+Proof.
+  intros Hp Hd. rewrite (after_p_final _ _ _ _ _ _ Hp Hd). unfold right_of. rewrite Hp.
+  pose proof (path_at_depth_le _ _ _ Hp). replace (d =? rp_depth r) with true by (symmetry; apply Nat.eqb_eq; lia).
+  reflexivity.
+Qed.
+Lemma right_of_inner r d n i o :
+  path_at r d = Some (n, i, o) -> d < rp_depth r -> right_of r d = ftoks (skipn (S i) (node_content n)).
+Proof.
+  intros Hp Hd. unfold right_of. rewrite Hp. replace (d =? rp_depth r) with false by (symmetry; apply Nat.eqb_neq; lia).
+  reflexivity.
+Qed.
+
+(* ---------------------------------------------------------------- replace_two_way *)
+Lemma joinable_node before after depth n :
+  joinable s before after depth = Ok n -> rp_node before depth = Ok n /\ exists a, rp_node after depth = Ok a.
+Proof.
+  unfold joinable. destruct (rp_node before depth) as [n0|]; [|discriminate]. cbn [bind].
+  destruct (rp_node after depth) as [a0|]; [|discriminate]. cbn [bind].
+  destruct (check_join s n0 a0); [|discriminate]. cbn [bind]. intros H; inversion H; subst. eauto.
+Qed.
+
+Lemma two_way_toks : forall fuel from to depth l,
+  replace_two_way s fuel from to depth = Ok l ->
+  rp_depth from = rp_depth to -> TextAt from -> TextAt to -> PathShape s from ->
+  nt (ftoks l) = nt (before_p s (skipn depth (rp_path from)) (rp_text_offset from)) ++
+                 nt (after_p s (skipn depth (rp_path to)) (rp_text_offset to)).
+Proof.
+  induction fuel as [|fuel IH]; intros from to depth l H Hdep Htf Htt Hsh; [discriminate|].
+  cbn [replace_two_way] in H.
+  destruct (add_range s None (Some from) depth []) as [c1|] eqn:E1; [|discriminate]. cbn [bind] in H.
+  pose proof (add_range_left _ _ _ _ E1 Htf) as Hc1. cbn [Tokens.ftoks nt List.map app] in Hc1.
+  (* the path entries at this depth *)
+  assert (Hpf : exists n i o, path_at from depth = Some (n, i, o)).
+  { unfold add_range in E1. destruct (rp_node from depth) as [n|] eqn:En; [|discriminate].
+    destruct (rp_node_path _ _ _ En) as (i & o & Hp). eauto. }
+  destruct Hpf as (nf & i_f & o_f & Hpf).
+  destruct (depth <? rp_depth from) eqn:Ed.
+  - apply Nat.ltb_lt in Ed.
+    destruct (joinable s from to (S depth)) as [ty|] eqn:Ej; [|discriminate]. cbn [bind] in H.
+    destruct (replace_two_way s fuel from to (S depth)) as [inner|] eqn:Ei; [|discriminate]. cbn [bind] in H.
+    destruct (close s ty inner) as [cl|] eqn:Ec; [|discriminate]. cbn [bind] in H.
+    destruct (joinable_node _ _ _ _ Ej) as (Hty & (a & Ha)).
+    destruct (Hsh _ _ Hty) as (Hel & Hnl). specialize (Hnl (Nat.lt_0_succ depth)).
+    pose proof (close_toks _ _ _ Ec Hnl Hel) as Hcl.
+    pose proof (add_range_right _ _ _ _ H Htt) as Hl.
+    rewrite Hl, add_node_toks, Hc1, Hcl.
+    destruct (rp_node_path _ _ _ Hty) as (i1 & o1 & Hpf1).
+    destruct (rp_node_path _ _ _ Ha) as (i2 & o2 & Hpt1).
+    assert (Hpt : exists n i o, path_at to depth = Some (n, i, o)).
+    { unfold add_range in H. destruct (rp_node to depth) as [n|] eqn:En; [|discriminate].
+      destruct (rp_node_path _ _ _ En) as (i & o & Hp). eauto. }
+    destruct Hpt as (nt_ & i_t & o_t & Hpt).
+    rewrite (left_of_inner _ _ _ _ _ Hpf Ed), (right_of_inner _ _ _ _ _ Hpt ltac:(lia)).
+    rewrite (before_p_inner _ _ _ _ _ _ _ _ _ Hpf Hpf1), (after_p_inner _ _ _ _ _ _ _ Hpt Hpt1).
+    specialize (IH _ _ _ _ Ei Hdep Htf Htt Hsh).
+    unfold nt in *. rewrite !map_app. cbn [List.map]. rewrite !map_app. cbn [List.map]. rewrite IH.
+    rewrite <- !app_assoc. cbn [app]. f_equal. f_equal. rewrite <- !app_assoc. reflexivity.
+  - apply Nat.ltb_ge in Ed. cbn [bind] in H.
+    pose proof (add_range_right _ _ _ _ H Htt) as Hl. rewrite Hl, Hc1.
+    assert (Hpt : exists n i o, path_at to depth = Some (n, i, o)).
+    { unfold add_range in H. destruct (rp_node to depth) as [n|] eqn:En; [|discriminate].
+      destruct (rp_node_path _ _ _ En) as (i & o & Hp). eauto. }
+    destruct Hpt as (nt_ & i_t & o_t & Hpt).
+    rewrite (left_of_final _ _ _ _ _ Hpf Ed), (right_of_final _ _ _ _ _ Hpt ltac:(lia)). reflexivity.
+Qed.
+
 End WithSchema.
